@@ -1,6 +1,11 @@
-/- line-protocol driver for C10: `drv_c10 <sub-command>` reads operations on stdin, prints one canonical line per operation.
+/- line-protocol driver for C10: `drv_c10 cond` (conditional nests), `drv_c10 incl` (include graphs).
    Core Lean only (nothing imported here may import Mathlib, or the executable will not link). -/
+import ChibiVerif.Driver.CondInclCmd
 
 def main (args : List String) : IO UInt32 := do
-  IO.eprintln s!"drv_c10: no sub-commands yet (args {args})"
-  return 2
+  match args with
+  | "cond" :: _ => ChibiVerif.Driver.C10.condMain
+  | "incl" :: _ => ChibiVerif.Driver.C10.inclMain
+  | _ =>
+    IO.eprintln "usage: drv_c10 cond|incl"
+    return 2
